@@ -3,6 +3,7 @@ import StunVerif.Props.C07Codec
 import StunVerif.Props.SrcFnAgent
 import StunVerif.Props.SrcFnPoll
 import StunVerif.Props.SrcFnIntegrity
+import StunVerif.Props.SrcFnGlue
 #print axioms StunVerif.C07.delivered_auth
 #print axioms StunVerif.C07.forged_dropped
 #print axioms StunVerif.C07.forged_equiv
@@ -51,3 +52,15 @@ import StunVerif.Props.SrcFnIntegrity
 #print axioms StunVerif.SrcFnIntegrity.src_validateIntegrity_faultEq
 #print axioms StunVerif.SrcFnIntegrity.accepted_size
 #print axioms StunVerif.SrcFnIntegrity.src_validateIntegrity
+#print axioms StunVerif.SrcFnGlue.src_reqNew
+#print axioms StunVerif.SrcFnGlue.src_mtypeClass
+#print axioms StunVerif.SrcFnGlue.accepted
+#print axioms StunVerif.SrcFnGlue.src_msgGetType
+#print axioms StunVerif.SrcFnGlue.src_msgClass
+#print axioms StunVerif.SrcFnGlue.src_msgMethod
+#print axioms StunVerif.SrcFnGlue.src_msgHasClass
+#print axioms StunVerif.SrcFnGlue.src_msgHasMethod
+#print axioms StunVerif.SrcFnGlue.src_msgTransactionId
+#print axioms StunVerif.SrcFnGlue.src_msgRawAttribute
+#print axioms StunVerif.SrcFnGlue.src_msgHasAttribute
+#print axioms StunVerif.SrcFnGlue.src_inMsg
